@@ -15,6 +15,18 @@ CLAIMED = {
         note="Trusted: Coq kernel, translator, extraction (ExtrOcamlBasic only), Rust/OCaml harness; Rust std char predicates modelled by dumped range tables; reference Unicode data from Perl Unicode::UCD / Python unicodedata 14.0.0. No axioms (Print Assumptions: closed).",
         technique="Coq proof over translator-regenerated tables + exhaustive model/implementation correspondence",
     ),
+    "C01": dict(
+        text="Coq theorems over a hand model of the whole fuzzy dispatch (prefilters, greedy scan, equal-length and single-char shortcuts, slab guard, DP setup): the greedy entry point returns Match exactly when the needle is a subsequence of the normalised haystack and never panics (C01_greedy_decision); the optimal entry point rejects exactly the non-subsequences (C01_fuzzy_reject); the entry points agree and the decision is representation-independent outside known finding K1 (refuted witness included). All for every configuration and every string length. Partial: absence of panics inside the DP is C10's claim. Model tied to the code by a differential run (decision of both variants of both entry points, 16 configs x 4 representation pairs, sizes beyond the matrix/u16 limits; thorough: exhaustive small strings) and by the spec oracle subseq_b on the implementation's answers.",
+        design_ref="DESIGN.md section 6, C01",
+        note="Trusted: Coq kernel, translator (constants, presets, slab guard), extraction, harness; memchr family and Rust std char predicates modelled by their specification. Known finding K1 excluded by hypothesis and listed in known_findings.json. Axioms: none.",
+        technique="Coq proof (list induction, greedy-scan completeness) over a hand model + differential correspondence",
+    ),
+    "C05": dict(
+        text="Coq theorems: prefix/postfix/exact entry points succeed exactly when the trimmed-equality relations of the property hold (C05_exact_kinds); substring matching succeeds exactly when the needle occurs contiguously in the normalised haystack and reports the leftmost occurrence with the highest first-character bonus (C05_substring, with the argmax lemma C05_best_pos), for every configuration/haystack/normalised needle outside K1. The model enumerates occurrences (memchr/memmem by specification); the Rust prefilter selection is tied by the differential run on (decision, start index), including needles starting with several non-letters, occurrences ending at the last character, overlapping occurrences, 8 kinds of whitespace.",
+        design_ref="DESIGN.md section 6, C05",
+        note="Trusted: Coq kernel, translator, extraction, harness; memchr/memmem modelled by specification. Whitespace for trimming is the predicate the code applies to that representation. Axioms: none.",
+        technique="Coq proof over a hand model + differential correspondence with spec oracle",
+    ),
 }
 PENDING_REASON = "not claimed yet: the Coq model, theorems and code tie for this property are still being built in this session (design in DESIGN.md section 6); no other technique is substituted"
 
